@@ -2,28 +2,113 @@
     /repo).  Shared by props/C16.v (the theorem is stated over the complement) and props/C16_refuted.v (every listed
     key is refuted by the model).
 
-    The 27 keys found on the original tree (log1p x4, slice x8, array_repeat x4, overlay x10, date_sub x1) were
-    repaired in /repo (commits 149f416, 696553d, 299ac48, dcac97a, 99aad65; findings/C16.known.json, status fixed):
-    nothing is excluded from the theorem any more.  Their replay files stay as corpus cases (props/C16.v
-    [C16_repaired], checks/c16.py). *)
+    History: 27 keys found with plain probe names (log1p, slice, array_repeat, overlay pos/len, date_sub: a raw str met a
+    Python operator or lit()) and 44 keys found with the non-bare probe names 'event time' / 'end-ts' (add_months, trunc,
+    date_trunc, overlay replace, collect_set, isnan, nanvl, position, base64, unbase64, decode: Column(x) parses the str as
+    SQL) were repaired in /repo (findings/C16.known.json, status fixed).  Their replay files stay as corpus cases
+    (props/C16.v [C16_repaired], checks/c16.py). *)
 From Coq Require Import String List ZArith. Import ListNotations. Open Scope string_scope.
 
 (** the theorem is checked for these probe names (the finite bound of the statement) *)
-Definition probe_names : list string := ["c"; "zz9"].
+(** "c": a plain name; "MyCol": mixed case (identifier normalisation); "l.id": qualified; "event time", "end-ts": names
+    that are not bare identifiers (they parse as SQL expressions when a str is handed to Column() instead of col()) *)
+Definition probe_names : list string := ["c"; "MyCol"; "l.id"; "event time"; "end-ts"].
 
-(** genuine defects still present in the tree: none *)
-Definition C16_known : list (string * string * nat) := [].
+(** genuine defects still present in the tree (findings/C16.known.json, status known): the FORMAT argument of
+    to_unix_timestamp / try_to_timestamp / to_timestamp_ntz.  PySpark declares it ColumnOrName (a str is a column name);
+    sqlframe reads a str as the format text itself and reduces a Column to the text of its normalised identifier
+    (session.format_time), so the two call forms agree only for lower-case bare names.  Repairing it means deciding what a
+    format given as a column should mean for the dialect time-format translation: a redesign, not a one-line patch. *)
+Definition C16_known : list (string * string * nat) := [
+  ("to_timestamp_ntz", "bigquery", 1%nat);
+  ("to_timestamp_ntz", "duckdb", 1%nat);
+  ("to_timestamp_ntz", "postgres", 1%nat);
+  ("to_unix_timestamp", "databricks", 1%nat);
+  ("to_unix_timestamp", "duckdb", 1%nat);
+  ("to_unix_timestamp", "redshift", 1%nat);
+  ("to_unix_timestamp", "spark", 1%nat);
+  ("to_unix_timestamp", "standalone", 1%nat);
+  ("try_to_timestamp", "bigquery", 1%nat);
+  ("try_to_timestamp", "databricks", 1%nat);
+  ("try_to_timestamp", "duckdb", 1%nat);
+  ("try_to_timestamp", "postgres", 1%nat);
+  ("try_to_timestamp", "redshift", 1%nat);
+  ("try_to_timestamp", "snowflake", 1%nat);
+  ("try_to_timestamp", "spark", 1%nat);
+  ("try_to_timestamp", "standalone", 1%nat)
+].
 
-(** the keys that used to be listed; they are ordinary members of the theorem's domain now *)
+(** the keys that used to be listed and were repaired in /repo (status fixed); ordinary members of the theorem's domain *)
 Definition C16_repaired_keys : list (string * string * nat) := [
-  ("array_repeat", "databricks", 1%nat); ("array_repeat", "redshift", 1%nat);
-  ("array_repeat", "spark", 1%nat); ("array_repeat", "standalone", 1%nat);
+  ("add_months", "bigquery", 0%nat);
+  ("add_months", "databricks", 0%nat);
+  ("add_months", "duckdb", 0%nat);
+  ("add_months", "postgres", 0%nat);
+  ("add_months", "redshift", 0%nat);
+  ("add_months", "spark", 0%nat);
+  ("add_months", "standalone", 0%nat);
+  ("array_repeat", "databricks", 1%nat);
+  ("array_repeat", "redshift", 1%nat);
+  ("array_repeat", "spark", 1%nat);
+  ("array_repeat", "standalone", 1%nat);
+  ("base64", "bigquery", 0%nat);
+  ("base64", "duckdb", 0%nat);
+  ("base64", "postgres", 0%nat);
+  ("base64", "snowflake", 0%nat);
+  ("collect_set", "bigquery", 0%nat);
+  ("collect_set", "duckdb", 0%nat);
+  ("collect_set", "postgres", 0%nat);
   ("date_sub", "snowflake", 1%nat);
-  ("log1p", "bigquery", 0%nat); ("log1p", "duckdb", 0%nat); ("log1p", "postgres", 0%nat); ("log1p", "snowflake", 0%nat);
-  ("overlay", "databricks", 2%nat); ("overlay", "databricks", 3%nat); ("overlay", "postgres", 2%nat);
-  ("overlay", "postgres", 3%nat); ("overlay", "redshift", 2%nat); ("overlay", "redshift", 3%nat);
-  ("overlay", "spark", 2%nat); ("overlay", "spark", 3%nat); ("overlay", "standalone", 2%nat);
+  ("date_trunc", "bigquery", 1%nat);
+  ("date_trunc", "databricks", 1%nat);
+  ("date_trunc", "duckdb", 1%nat);
+  ("date_trunc", "postgres", 1%nat);
+  ("date_trunc", "redshift", 1%nat);
+  ("date_trunc", "snowflake", 1%nat);
+  ("date_trunc", "spark", 1%nat);
+  ("date_trunc", "standalone", 1%nat);
+  ("decode", "duckdb", 0%nat);
+  ("decode", "postgres", 0%nat);
+  ("isnan", "postgres", 0%nat);
+  ("isnan", "snowflake", 0%nat);
+  ("log1p", "bigquery", 0%nat);
+  ("log1p", "duckdb", 0%nat);
+  ("log1p", "postgres", 0%nat);
+  ("log1p", "snowflake", 0%nat);
+  ("nanvl", "postgres", 0%nat);
+  ("nanvl", "snowflake", 0%nat);
+  ("overlay", "databricks", 1%nat);
+  ("overlay", "databricks", 2%nat);
+  ("overlay", "databricks", 3%nat);
+  ("overlay", "postgres", 1%nat);
+  ("overlay", "postgres", 2%nat);
+  ("overlay", "postgres", 3%nat);
+  ("overlay", "redshift", 1%nat);
+  ("overlay", "redshift", 2%nat);
+  ("overlay", "redshift", 3%nat);
+  ("overlay", "spark", 1%nat);
+  ("overlay", "spark", 2%nat);
+  ("overlay", "spark", 3%nat);
+  ("overlay", "standalone", 1%nat);
+  ("overlay", "standalone", 2%nat);
   ("overlay", "standalone", 3%nat);
-  ("slice", "bigquery", 1%nat); ("slice", "bigquery", 2%nat); ("slice", "duckdb", 1%nat); ("slice", "duckdb", 2%nat);
-  ("slice", "postgres", 1%nat); ("slice", "postgres", 2%nat); ("slice", "snowflake", 1%nat); ("slice", "snowflake", 2%nat)
+  ("position", "bigquery", 2%nat);
+  ("slice", "bigquery", 1%nat);
+  ("slice", "bigquery", 2%nat);
+  ("slice", "duckdb", 1%nat);
+  ("slice", "duckdb", 2%nat);
+  ("slice", "postgres", 1%nat);
+  ("slice", "postgres", 2%nat);
+  ("slice", "snowflake", 1%nat);
+  ("slice", "snowflake", 2%nat);
+  ("trunc", "bigquery", 0%nat);
+  ("trunc", "databricks", 0%nat);
+  ("trunc", "duckdb", 0%nat);
+  ("trunc", "postgres", 0%nat);
+  ("trunc", "redshift", 0%nat);
+  ("trunc", "snowflake", 0%nat);
+  ("trunc", "spark", 0%nat);
+  ("trunc", "standalone", 0%nat);
+  ("unbase64", "postgres", 0%nat);
+  ("unbase64", "snowflake", 0%nat)
 ].
